@@ -434,7 +434,6 @@ func tableEntriesPermanent(c *Check, a *Anchors) {
 	}
 }
 
-
 // tableStoresOnlyNonNil: every store into Executor.executionHashes in package task stores the address of a composite literal
 // (directly or through a variable whose every definition is one): a found entry is never nil.
 func tableStoresOnlyNonNil(c *Check) bool {
